@@ -129,7 +129,7 @@ pub fn vector_copy(vm: &mut Vm) -> Result<VCell, Error> {
     let vector = vector.as_ref();
 
     match (start, end) {
-        (Some(start), _) if start > vector.len() - 1 => {
+        (Some(start), _) if start > vector.len() => {
             return Err(InvalidVectorIndex(start, vector.len()));
         }
         (_, Some(end)) if end > vector.len() => {
